@@ -151,3 +151,139 @@ def sized_cases(tier, shard, of, extra=None):
         if extra:
             case.update(extra)
         yield case, ('size:%s' % axis, 'size:%s>=%d' % (axis, 10 ** (len(str(n)) - 1)))
+
+
+POISONS = ('object', 'naive-dt', 'na2', 'set')
+
+
+def check_after_failed(case, fmt):
+    """case = {'kind': 'after-failed', 'grid': model, 'poison': one of POISONS, 'where': 'cell' | 'nested' | 'outer'}
+    A dump that is refused (a value of no Haystack kind, a zone-less date-time, 3.0-only data smuggled into a row of a
+    2.0 grid) must leave nothing behind: once the row is repaired, the very same Grid object - alone, nested in another
+    grid, or as part of a document of several grids - round-trips like any other valid grid."""
+    import datetime
+    import hszinc
+    m = case['grid']
+    where = case.get('where', 'cell')
+    poison = case['poison']
+    col = m[3][0][0]
+    if not m[4]:
+        m = ['grid', m[1], m[2], m[3], [[[col, ['num', 1.0]]]]]
+    if where != 'cell' and m[1] != '3.0':
+        where = 'cell'
+    g = model.grid_from_model(m)
+    mode = hszinc.MODE_ZINC if fmt == 'zinc' else hszinc.MODE_JSON
+    if poison == 'object':
+        bad = object()
+    elif poison == 'naive-dt':
+        bad = datetime.datetime(2020, 1, 2, 3, 4, 5)
+    elif poison == 'set':
+        bad = {1, 2}
+    else:
+        bad = hszinc.NA
+        if m[1] != '2.0':
+            bad = object()
+    outer_m = ['grid', '3.0', [], [['o', []], ['p', []]], [[['o', m], ['p', ['num', 1.0]]], [['o', ['list', [m]]]]]]
+    outer = model.grid_from_model(outer_m) if where != 'cell' else None
+    if outer is not None:
+        # the *same* inner Grid object sits in both rows of the outer grid
+        outer[0]['o'] = g
+        outer[1]['o'] = [g]
+    row = g[0]
+    had = col in row
+    old = row.get(col, None)
+    for attempt in range(2):
+        row[col] = bad
+        target = outer if where == 'nested' else g
+        try:
+            hszinc.dump(target, mode=mode)      # whether this value is refused is not C01/C02's business
+        except Exception:      # noqa - nor is the exception class of a refused dump
+            pass
+        if had:
+            row[col] = old
+        else:
+            del row[col]
+        if where == 'cell':
+            docs = [(g, [m], True), ([g, g], [m, m], False)]
+        else:
+            docs = [(outer, [outer_m], True), (g, [m], True)]
+        for obj, want, single in docs:
+            txt = guarded('dump-raises-after-failed-dump', case, hszinc.dump, obj, mode=mode)
+            back = guarded('parse-raises-after-failed-dump', case, hszinc.parse, txt, mode=mode, single=single)
+            back = [back] if single else back
+            if len(back) != len(want):
+                raise Violation('grid-count', case, 'after a failed dump: dumped %d grids, parsed %d' % (len(want), len(back)))
+            for w, b in zip(want, back):
+                d = model.diff(model.normalise(w), model.to_model(b), tol=(fmt == 'json'))
+                if d:
+                    raise Violation('roundtrip-diff', case, 'after a failed dump: %s' % d, (fmt, 'after-failed'))
+
+
+FIXED_OFFSETS = sorted(set(list(range(-14 * 60, 14 * 60 + 1, 15)) + [1, -1, 7, -7, 754, -754, 315, 330, 345, 525, 765, -210, -570, 20, -44]))
+FIXED_INSTANTS = ['2021-01-15T12:00:00.000000', '2021-07-15T12:00:00.000000', '1975-06-01T00:30:00.000000',
+                  '2010-03-01T23:59:59.999999', '2021-03-28T01:30:00.000000', '2021-11-07T06:30:00.250000']
+
+
+def fixed_offset_cases():
+    for oi, off in enumerate(FIXED_OFFSETS):
+        for ii, utc in enumerate(FIXED_INSTANTS):
+            yield {'kind': 'fixed-offset', 'ver': '3.0' if (oi + ii) % 2 else '2.0', 'offset_min': off, 'utc': utc,
+                   'pos': ('cell', 'meta', 'colmeta', 'list')[(oi + ii) % 4]}
+
+
+def check_fixed_offset(case, fmt, how):
+    """A date-time whose tzinfo is a bare UTC offset has no Haystack zone name of its own.  The writer may refuse it
+    (ValueError; which offsets it refuses is C17's subject) - but when it writes it, the text must denote the same
+    instant at the same offset, whatever zone name it picked.  how = 'own' (hszinc reads its text back) or 'ref' (the
+    harness's independent reader does).  Returns 'refused' or 'written'."""
+    import hszinc
+    from . import zinc_ref, json_ref
+    v = ['dt', case['utc'], case['offset_min'] * 60, None]
+    ver, pos = case['ver'], case['pos']
+    if pos == 'list' and ver != '3.0':
+        pos = 'cell'
+    if pos == 'cell':
+        m = ['grid', ver, [], [['a', []], ['b', []]], [[['a', v], ['b', ['num', 1.0]]], [['b', v]]]]
+    elif pos == 'meta':
+        m = ['grid', ver, [['m', v]], [['a', []]], [[['a', ['num', 1.0]]]]]
+    elif pos == 'colmeta':
+        m = ['grid', ver, [], [['a', [['cm', v]]]], [[['a', ['num', 1.0]]]]]
+    else:
+        m = ['grid', ver, [], [['a', []]], [[['a', ['list', [v, ['str', 'x'], v]]]]]]
+    g = model.grid_from_model(m)
+    mode = hszinc.MODE_ZINC if fmt == 'zinc' else hszinc.MODE_JSON
+    try:
+        txt = hszinc.dump(g, mode=mode)
+    except Exception:      # noqa - refusing a zone-less offset is allowed here
+        return 'refused'
+    if how == 'own':
+        back = model.to_model(guarded('parse-raises', case, hszinc.parse, txt, mode=mode, single=True))
+    elif fmt == 'zinc':
+        try:
+            back = zinc_ref.read_document(txt)[0][0]
+        except zinc_ref.ZincRefError as e:
+            raise Violation('not-conformant', case, '%s | text=%r' % (e, txt[:300]))
+    else:
+        try:
+            back = json_ref.read_document(json.loads(txt))[0]
+        except json_ref.JsonRefError as e:
+            raise Violation('not-conformant', case, '%s | text=%r' % (e, txt[:300]))
+    d = model.diff(model.normalise(m), back, tol=(fmt == 'json'), dt_by_instant=True)
+    if d:
+        raise Violation('fixed-offset-denotes-other-instant', case, '%s | text=%r' % (d, txt[:300]), (fmt, how))
+    return 'written'
+
+
+def fixed_offset_part(acc, fmt, how):
+    n = 0
+    for case in fixed_offset_cases():
+        try:
+            r = check_fixed_offset(case, fmt, how)
+        except Violation as v:
+            acc.violation(v)
+            continue
+        acc.case(case, r == 'written', labels=('fixed-offset:' + r,))
+        n += 1
+        if n % 97 == 1:
+            acc.sample(case)
+    acc.exhaustive['fixed-offset date-times: %d offsets x %d instants' % (len(FIXED_OFFSETS), len(FIXED_INSTANTS))] = True
